@@ -29,7 +29,12 @@ pub fn structure(strct: &Structure, env: Option<&Environment>, p: &Interpreter) 
 pub fn tuple(tpl: &Tuple, env: Option<&Environment>, p: &Interpreter) -> MResult<Value> {
   let mut elements = vec![];
   for el in &tpl.elements {
-    let result = expression(el, env, p)?;
+    let mut result = expression(el, env, p)?;
+    // an element given by a variable is the variable's value, not the reference to it
+    while let Value::MutableReference(reference) = result {
+      let inner = reference.borrow().clone();
+      result = inner;
+    }
     elements.push(Box::new(result));
   }
   let mech_tuple = Ref::new(MechTuple{elements});
